@@ -79,7 +79,17 @@ def plan(tier, seed):
         for K in ins:
             tasks.append({"kind": "direct", "dt": dt, "K": K, "tier": tier, "seed": seed})
         tasks.append({"kind": "matmul", "dt": dt, "tier": tier, "seed": seed})
+        for ci in range(len(_large_cfgs(tier))):
+            tasks.append({"kind": "large", "dt": dt, "cfg": ci, "tier": tier, "seed": seed})
     return tasks
+
+
+def _large_cfgs(tier):
+    """Size ladder far beyond the exhaustive bound: weights/outputs of 2^18 .. 2^22+ elements with non power-of-two dimensions."""
+    cfgs = [("lin", 4, 1152, 3700), ("lin", 128, 264, 2056), ("lin", 3, 2048, 2056), ("mm", 256, 256, 256)]
+    if tier == "thorough":
+        cfgs += [("lin", 2, 4224, 1000), ("lin", 520, 520, 520), ("lin", 1, 1024, 4100), ("mm", 264, 248, 272), ("mm", 1032, 16, 1040)]
+    return cfgs
 
 
 # ---------------------------------------------------------------------------------------
@@ -571,10 +581,86 @@ def _matmul_task(task, out):
                                 out["violations"].append(violation(PID, case, dict(fields, sub=sub), f"{sub}: {msg}"))
 
 
+def _large_task(task, out):
+    """Large operands (tiling / chunking / workspace code paths): every result of a group of calls is kept and judged only after
+    the whole group ran, so a result living in a shared buffer that a later call overwrites is seen."""
+    from optimum.quanto import QBytesTensor
+
+    _install_counters()
+    dtname, tier = task["dt"], task["tier"]
+    dt = num.DTYPES[dtname]
+    only = task.get("only")
+    what, n, K, N = _large_cfgs(tier)[task["cfg"]]
+    pending = []  # (case, fields, label, y, x64, w64, b, exact_ok, K)
+
+    def call(c, fields, label, thunk, x64, w64, b, exact_ok, kk):
+        case = dict(task, only=c)
+        journal(repr(case))
+        out["evals"] += 1
+        out["calls"] += 1
+        out["points"] += 1
+        out["nontrivial"] += 1
+        try:
+            with torch.no_grad():
+                y = thunk()
+        except Exception as e:  # noqa
+            out["violations"].append(violation(PID, case, dict(fields, sub="raised"), f"raised: {label}: {type(e).__name__}: {str(e)[:200]}"))
+            return
+        pending.append((case, fields, label, y, x64, w64, b, exact_ok, kk))
+
+    def flush():
+        for case, fields, label, y, x64, w64, b, exact_ok, kk in pending:
+            for sub, msg in _judge(y, x64, w64, b, dt, dtname, exact_ok, kk, label):
+                out["violations"].append(violation(PID, case, dict(fields, sub=sub), f"{sub}: {msg}"))
+        pending.clear()
+
+    if what == "lin":
+        wkinds = ["qint8", "qfloat8_e4m3fn", "qint8_pt"] + (["qint4_g128"] if K % 128 == 0 else ["qint4"])
+        for wkind in wkinds:
+            for family in ("exact", "large"):
+                if only and only[:2] != [wkind, family]:
+                    continue
+                w, w64 = _weight(wkind, N, K, dt, family, 0)
+                for akind in ("float", "qint8", "qfloat8_e4m3fn"):
+                    for bias in (False, True):
+                        for rep in range(2):
+                            c = [wkind, family, akind, bias, rep]
+                            x, x64, _, _ = _act(akind, (n, K), dt, family, rep)
+                            b = ((torch.arange(N, dtype=torch.float64) % 7 - 3) / 4).to(dt) if bias else None
+                            fields = {"kind": "large", "act": akind, "weight": wkind.split("_g")[0], "grouped": "_g" in wkind, "dtype": dtname, "family": family, "bias": bias}
+                            call(c, fields, f"F.linear large {c} rows={n} K={K} N={N} {dtname}", lambda x=x, w=w, b=b: F.linear(x, w, b), x64, w64, b, family == "exact", K)
+                    if not only:
+                        flush()
+                if only:
+                    pending[:] = [p for p in pending if p[0]["only"] == only]
+                    flush()
+    else:
+        m, p = K, N
+        for akind in ("qint8", "qint8@0", "qint8@-1", "float"):
+            for bkind in ("qint8", "qint8@0", "qint8@-1", "qfloat8_e4m3fn"):
+                a, a64, _, _ = _act(akind.split("@")[0], (n, m), dt, "exact", 0)
+                bT, bT64, _, _ = _act(bkind.split("@")[0], (p, m), dt, "exact", 1)
+                if "@" in akind:
+                    a, a64 = _peraxis(a, int(akind.split("@")[1]))
+                if "@" in bkind:
+                    bT, bT64 = _peraxis(bT, -1 if bkind.endswith("@0") else 0)
+                for blay in ("t", "contig"):
+                    d = bT._data.t() if blay == "t" else bT._data.t().contiguous()
+                    bax = None if bT.axis is None else (0 if bT.axis == -1 else -1)
+                    bq = QBytesTensor(bT.qtype, bax, d.size(), d.stride(), d, bT._scale if bT.axis is None else bT._scale.t())
+                    for fn_name in ("mm", "matmul"):
+                        c = [akind, bkind, blay, fn_name]
+                        if only and only != c:
+                            continue
+                        fields = {"kind": "large", "fn": fn_name, "act": akind, "other": bkind, "dtype": dtname, "family": "exact"}
+                        call(c, fields, f"torch.{fn_name} large {c} ({n},{m})x({m},{p}) {dtname}", lambda a=a, bq=bq, f=fn_name: getattr(torch, f)(a, bq), a64, bT64, None, True, m)
+                flush()
+
+
 def _run(task):
     out = {"evals": 0, "nontrivial": 0, "points": 0, "calls": 0, "violations": [], "samples": [], "counters": {}}
     _counts.clear()
-    {"linear": _linear_task, "direct": _direct_task, "matmul": _matmul_task}[task["kind"]](task, out)
+    {"linear": _linear_task, "direct": _direct_task, "matmul": _matmul_task, "large": _large_task}[task["kind"]](task, out)
     out["counters"] = dict(_counts)
     out["counters"][task["kind"] + "_cases"] = out["evals"]
     return out
@@ -613,7 +699,7 @@ def coverage(agg, tier, tasks):
     from ..pool import HarnessError
 
     c = agg.counters
-    for k in ("route_qbytes_mm", "route_qbytes_int_mm", "route_qbytes_int8pack_mm", "torch_int_mm", "torch_int8pack_mm", "linear_cases", "direct_cases", "matmul_cases"):
+    for k in ("route_qbytes_mm", "route_qbytes_int_mm", "route_qbytes_int8pack_mm", "torch_int_mm", "torch_int8pack_mm", "linear_cases", "direct_cases", "matmul_cases", "large_cases"):
         if c.get(k, 0) == 0:
             raise HarnessError(f"vacuity guard: {k} == 0 (a kernel route was never exercised)")
     return {
